@@ -611,12 +611,51 @@ theorem finishK_rest [DecidableEq α] (E : Sync.Env α) {n : Nat} (k : KWorld α
     have := cascadeK_calm E d k p req k' r (by rw [h.1]; simp) hc
     exact ⟨this.1.trans h.1, this.2.trans h.2⟩
 
-theorem linkOneK_rest [DecidableEq α] (E : Sync.Env α) {n : Nat} (k : KWorld α) (p q : Pair) (h : Rest n k) :
-    Rest n (linkOneK E k p q).world := by
-  unfold linkOneK
+theorem linkOneS_rest [DecidableEq α] (E : Sync.Env α) {n : Nat} (k : KWorld α) (p q : Pair) (h : Rest n k) :
+    Rest n (linkOneS E k p q).1 := by
+  unfold linkOneS
   split
   · exact h
-  · exact finishK_rest E _ q _ _ ⟨h.1, h.2⟩
+  · simp only []
+    generalize hk3 : PyLLink.setEdges _ _ = k3
+    have h3 : Rest n k3 := by
+      subst hk3
+      unfold PyLLink.setEdges hookI hookM PyLLink.setHooked
+      refine ⟨?_, ?_⟩
+      · show (ite _ _ _ : KWorld α).w.locked = []
+        split <;> (try split) <;> (try split) <;> (try split) <;> exact h.1
+      · show (ite _ _ _ : KWorld α).swallowed = n
+        split <;> (try split) <;> (try split) <;> (try split) <;> exact h.2
+    cases hc : recB E k3 q (.assign (k3.w.val p)) with
+    | error e => exact h3
+    | ok x =>
+      obtain ⟨k4, r⟩ := x
+      have := cascadeK_calm E _ k3 q _ k4 r (by rw [h3.1]; simp) hc
+      exact ⟨this.1.trans h3.1, this.2.trans h3.2⟩
+
+theorem linkS_rest [DecidableEq α] (E : Sync.Env α) {n : Nat} (k : KWorld α) (p q : Pair) (b : Bool) (h : Rest n k) :
+    Rest n (linkS E k p q b).1 := by
+  unfold linkS
+  have h1 := linkOneS_rest E k p q h
+  cases hl : linkOneS E k p q with
+  | mk k1 ex =>
+    rw [hl] at h1
+    cases ex with
+    | some e => exact h1
+    | none =>
+      cases b
+      · exact h1
+      · exact linkOneS_rest E k1 q p h1
+
+theorem unlinkOneS_rest (E : Sync.Env α) {n : Nat} (k : KWorld α) (p q : Pair) (h : Rest n k) :
+    Rest n (unlinkOneS E k p q) := by
+  unfold unlinkOneS PyLLink.setEdges PyLLink.setHooked
+  split
+  · exact h
+  · split
+    · simp only []
+      split <;> split <;> exact h
+    · exact h
 
 theorem stepK_rest [DecidableEq α] (E : Sync.Env α) {n : Nat} (k : KWorld α) (c : CmdK α) (h : Rest n k) :
     Rest n (stepK E k c).world := by
@@ -628,14 +667,13 @@ theorem stepK_rest [DecidableEq α] (E : Sync.Env α) {n : Nat} (k : KWorld α) 
     | assign p v => exact finishK_rest E _ p _ _ h0
     | mutate p op => exact finishK_rest E _ p _ _ h0
     | link p q m =>
-      simp only [stepK, linkK]
-      have h1 := linkOneK_rest E _ p q h0
+      simp only [stepK]
+      exact linkS_rest E _ p q m h0
+    | unlink p q m =>
+      simp only [stepK, unlinkS]
       split
-      · exact h1
-      · split
-        · exact linkOneK_rest E _ q p h1
-        · exact h1
-    | unlink p q m => exact ⟨by simp only [stepK]; rw [unlink_locked]; exact h.1, h.2⟩
+      · exact unlinkOneS_rest E _ q p (unlinkOneS_rest E _ p q h0)
+      · exact unlinkOneS_rest E _ p q h0
     | kill o => exact ⟨by simp [stepK, killK, World.kill, h.1], h.2⟩
 
 theorem runK_rest [DecidableEq α] (E : Sync.Env α) {n : Nat} (cs : List (CmdK α)) :
